@@ -19,8 +19,8 @@ from harness.props import compare_common as cc
 MANIFEST = dict(
     category="proof",
     technique="Lean 4 theorems over a hand-written model of the compare engine + differential correspondence with the implementation",
-    text="Lean theorems, unbounded in tree size/depth, stated for EVERY flag record (C07_reachable / C07_reachable_iff: the configurations reachable through any history of set__flag_compare_* calls are exactly those satisfying FlagInv, so 'every flag record' covers them): C07_direct_exact - on recursively converted trees with roots of the same kind direct_compare returns and its differences list is empty iff the trees are structurally equal (deq: same key set with equal values, same list length and order, leaves equal with equal type, None only equals None); C07_default_exact - the default compare (no composite key) returns and reports nothing iff the trees are equal up to the order of the non-record items inside each list (eqv: dictionaries key by key, the records of a list pairwise in order, the non-record items of a list the same up to deq as multisets: every item occurs, up to deq, equally often on both sides - so 1, '1', 1.0, True, None, 'None', '' are different items and a list nested in a list does not depend on the order of the keys of the dictionaries inside it: the inputs of the fixed findings C07-b and C07-c are inside the theorem, C07_collision_fixed / C07_emptykey_fixed / C07_keyorder_fixed) under ONE remaining hypothesis that speaks about the key function, not about the inputs: KeyFaithfulOn a b - the key of the non-record list items, json.dumps(item, sort_keys=True, default=repr) (modelled character by character: jsonVal, validated by stream cmp.keys), is equal for two of them iff they are deq, and is never empty. It is true of json.dumps on genuine Python values and is not derivable in the model because floats are opaque lexemes: C07_float_lexeme_cex (a float with the lexeme '1' has the key of the int 1 - not a Python value), hence C07_default_exact_stmt (no hypothesis) is false IN THE MODEL ONLY (C07_default_exact_stmt_false_in_model) - not a finding; C07_key_hypothesis_tight - for ANY two distinct leaves with the same key, [x, y] and [y, x] are equal up to order and two differences are reported (the hypothesis cannot be dropped); C07_default_refl; C07_flags_only_add_detail / C07_verdict_flags - for every option record two flag records give the same exception class or the same number of lines and the same core entries with the same places (numeric deltas, equal-lists, shown places and the difftypes/not_equal filing are the only things that vary). The model (lean/N0Verif/Model/Compare.lean) follows n0dict.compare/direct_compare, n0list.compare/direct_compare, xpath_match, generate_composite_keys, update_extend and the flag machine branch by branch for the code WITH fix patches C07-a, C08-a, C09-a, C07-b, C07-c, C09-b, C10-a applied; it is compared with the implementation on generated pairs of trees (verdict, entry sets with rendered paths and values, number of prose lines, exception class) and the statement itself is executed on the implementation with Python-side oracles - on ALL generated inputs, collisions of str(), reordered dictionary keys inside nested lists and mixed scalar types included (no class is suppressed any more).",
-    note='str()/repr() and the JSON text (sorted keys, ensure_ascii escapes) of values, xpath_match and the flag machine are modelled and validated by their own streams (cmp.keys, cmp.match, cmp.flags incl. all histories of length <= 3/4); floats are opaque lexemes (NaN, infinities, -0.0 excluded); ints stay within float range; dictionary keys unique (Python dicts).',
+    text="Lean theorems, unbounded in tree size/depth, stated for EVERY flag record (C07_reachable / C07_reachable_iff: the configurations reachable through any history of set__flag_compare_* calls are exactly those satisfying FlagInv, so 'every flag record' covers them): C07_direct_exact - on recursively converted trees with roots of the same kind direct_compare returns and its differences list is empty iff the trees are structurally equal (deq: same key set with equal values, same list length and order, leaves equal with equal type, None only equals None); C07_default_exact - the default compare (no composite key) returns and reports nothing iff the trees are equal up to the order of the non-record items inside each list (eqv: dictionaries key by key, the records of a list pairwise in order, the non-record items of a list the same up to deq as multisets: every item occurs, up to deq, equally often on both sides - so 1, '1', 1.0, True, None, 'None', '' are different items and a list nested in a list does not depend on the order of the keys of the dictionaries inside it: the inputs of the fixed findings C07-b and C07-c are inside the theorem, C07_collision_fixed / C07_emptykey_fixed / C07_keyorder_fixed) under ONE remaining hypothesis that speaks about the key function, not about the inputs: KeyFaithfulOn a b - the key of the non-record list items, json.dumps(item, sort_keys=True, default=repr) (modelled character by character: jsonVal, validated by stream cmp.keys), is equal for two of them iff they are deq, and is never empty. It is true of json.dumps on genuine Python values and is not derivable in the model because floats are opaque lexemes: C07_float_lexeme_cex (a float with the lexeme '1' has the key of the int 1 - not a Python value), hence C07_default_exact_stmt (no hypothesis) is false IN THE MODEL ONLY (C07_default_exact_stmt_false_in_model) - not a finding; C07_key_hypothesis_tight - for ANY two distinct leaves with the same key, [x, y] and [y, x] are equal up to order and two differences are reported (the hypothesis cannot be dropped); C07_default_refl; C07_flags_only_add_detail / C07_verdict_flags - for every option record two flag records give the same exception class or the same number of lines and the same core entries with the same places (numeric deltas, equal-lists, shown places and the difftypes/not_equal filing are the only things that vary; since fix C07-d the numeric delta of two ints beyond float range is their exact difference instead of an OverflowError - the delta is a flag of the entry in the model, so 'never raises' is what the model says and what streams cmp.run/bigint, verdict/bigint, flags/bigint check). OPEN FINDINGS: C07-e (C07_negzero_cex: 0.0 == -0.0 but the JSON keys '0.0' / '-0.0' differ, so the default compare of {'a':[0.0]} and {'a':[-0.0]} reports two unique items; classifier negzero_class, stream verdict/floats) and C07-f (an int of more than 4300 digits inside a list: compare raises ValueError from json.dumps - CPython's int->str limit - where direct_compare returns; evaluator hugeint). The model (lean/N0Verif/Model/Compare.lean) follows n0dict.compare/direct_compare, n0list.compare/direct_compare, xpath_match, generate_composite_keys, update_extend and the flag machine branch by branch for the code WITH fix patches C07-a, C08-a, C09-a, C07-b, C07-c, C09-b, C10-a, C07-d, C08-b, C10-c applied; it is compared with the implementation on generated pairs of trees (verdict, entry sets with rendered paths and values, number of prose lines, exception class) and the statement itself is executed on the implementation with Python-side oracles - on ALL generated inputs, collisions of str(), reordered dictionary keys inside nested lists, mixed scalar types, ints beyond float range, infinities and nan included; the only suppressed classes are those of the open findings C07-e and C07-f.",
+    note='str()/repr() and the JSON text (sorted keys, ensure_ascii escapes) of values, xpath_match and the flag machine are modelled and validated by their own streams (cmp.keys, cmp.match, cmp.flags incl. all histories of length <= 3/4); floats are opaque lexemes compared as texts: infinities are inside the model (jsonFloat writes Infinity/-Infinity/NaN), nan (nan != nan) and -0.0 (0.0 == -0.0) are generated but answered `unsupported` by the driver and judged by the C evaluators only; ints of any size up to the int->str limit of the interpreter (4300 digits); dictionary keys unique (Python dicts).',
     design_ref='5/C07',
 )
 
@@ -354,9 +354,9 @@ def run(ctx):
         ctx.extra["exhaustive_pairs"] = "all %d same-root pairs of the %d trees with <= 4 nodes over keys {a,b}, leaves {1,'1',None}, both entry points" % (len(ex) // 2, len(ts))
     ctx.extra["assumptions"] = [
         "trees are converted recursively (every container is an n0dict/n0list), dictionary keys are plain str names",
-        "floats are compared by repr (NaN, infinities and -0.0 are not generated)",
-        "ints stay within float range (the numeric-delta detail calls float() on them)",
+        "floats are compared by repr in the model: trees holding nan or -0.0 are `unsupported` in B (counted) and judged by the C evaluators with Python's == (nan != nan, 0.0 == -0.0); infinities are inside the model",
+        "ints of up to 4300 digits (CPython's int->str limit; beyond it: finding C07-f); ints beyond float range are generated (fix C07-d)",
         "str()/repr() of values is modelled for ASCII, Latin-1 and printable non-ASCII characters; the JSON text of a list item (ensure_ascii escapes, surrogate pairs, sorted keys) for every code point (both validated by stream cmp.keys)",
-        "the model follows the code with fix patches C07-a, C08-a, C09-a, C07-b, C07-c, C09-b, C10-a applied",
+        "the model follows the code with fix patches C07-a, C08-a, C09-a, C07-b, C07-c, C09-b, C10-a, C07-d, C08-b, C10-c applied",
     ]
     ctx.extra["trusted_base"] = ["Python-side oracles deq/eqv of harness/props/compare_common.py (reading of 'structurally equal' / 'equal up to order')"]
